@@ -533,6 +533,8 @@ class Connection:
         )
 
         com_stmt_execute.stmt.param_buffers = None
+        # A new execution supersedes the statement's open cursor, whatever its outcome
+        com_stmt_execute.stmt.cursor = None
 
         result_set = await self.query(
             com_stmt_execute.sql, com_stmt_execute.query_attrs
